@@ -35,6 +35,9 @@ def leaves(tier):
             out.append("RxxV %s %s;" % (op, rhs_for(op, "b")))
     if tier != "thorough":
         out += ["x /= (y | 1);", "x &= y;"]  # the right operand is wider than the target
+    # chained assignments whose inner assignment is compound or reads its own target (the outer target gets the value the
+    # inner assignment stored, computed once)
+    out += ["y = x += b;", "x = y -= 1;", "RdV = RxV |= a;", "y = x = x << 1;", "x = y = y + x;", "RdV = x *= 3;", "x = RxV -= a;", "y = x <<= 2;", "y = x = RxV += 1;", "x = y >>= (a & 3);"]
     # statements only the bundled behaviours use otherwise
     out += ["STORE_SLOT_CANCELLED(pkt, slot);", "cancel_slot;", 'fatal("C is broken");', "x = get_npc(pkt);"]
     out += ["y |= 0x100000001ULL; x /= y;", "y |= 0x100000001ULL; x %= y;", "x += (a < b);", "x <<= (a < b);", "y >>= !a;", "x *= (a && b);"]
